@@ -1033,13 +1033,13 @@ def gen_cases(ctx):
             cases.append({"kind": "fit", "spec": c["b"]})
         if fit_eligible(S) and fits < (6 if quick else 40):
             fits += 1
-            b = with_build(S, route="fit")
-            if b["search"]["cls"] == "DynestyStatic":
-                b["search"]["settings"]["nlive"] = 20
-                a = _copy.deepcopy(S)
-                a["search"]["settings"]["nlive"] = 20
-            else:
-                a = S
+            a = _copy.deepcopy(S)
+            if a["search"]["cls"] == "DynestyStatic":      # settings dynesty accepts, small enough to finish
+                a["search"]["settings"].update(nlive=rng.choice([20, 25, 30]), bound=rng.choice(["multi", "single", "none"]),
+                                               sample=rng.choice(["auto", "unif", "rwalk"]), bootstrap=None, enlarge=None,
+                                               walks=rng.choice([5, 6]), facc=0.5, slices=5, fmove=0.9, max_move=100)
+                a["search"]["run"] = {"maxcall": 150}
+            b = with_build(a, route="fit")
             cases.append({"kind": "pair", "how": "fit", "expect": "same", "a": a, "b": b, "labels": reload_labels(S, "fit")})
     for _ in range(3 if quick else 20):
         cases += special_pairs(rng, Gen(rng, clean=True))
@@ -1148,16 +1148,10 @@ def coq_terms(c, r):
         b = r["b"]
         if c["b"].get("build", {}).get("route") == "reload":
             S = c["b"]
-            raised = "raised" in b
-            out.append("CReload %s %s %s" % (node_term(S["model"], S["pool"]), cbool(raised),
-                                             "ONone" if raised else obj_term(b["abs_model"])))
-            if not raised or b.get("msg", "").startswith("autofit.non_linear.search") or S["search"]["cls"] == "Drawer":
-                # the search alone
-                sraised = raised and S["search"]["cls"] == "Drawer"
-                if not raised:
-                    out.append("CReload %s false %s" % (search_term(S["search"]), obj_term(b["abs_search"])))
-                elif sraised:
-                    out.append("CReload %s true ONone" % search_term(S["search"]))
+            mr = "model_raised" in b
+            out.append("CReload %s %s %s" % (node_term(S["model"], S["pool"]), cbool(mr), "ONone" if mr else obj_term(b["abs_model"])))
+            sr = "search_raised" in b
+            out.append("CReload %s %s %s" % (search_term(S["search"]), cbool(sr), "ONone" if sr else obj_term(b["abs_search"])))
         if c["b"].get("build", {}).get("route") in ("files", "fit") and "raised" not in b and b.get("abs_model"):
             S = c["b"]
             out.append("CReload %s false %s" % (node_term(S["model"], S["pool"]), obj_term(b["abs_model"])))
